@@ -289,6 +289,18 @@ class SpecEval(object):
             return and_(eq(x.a, y.a), eq(x.off, y.off), eq(x.len, y.len))
         raise SpecError('%s: cannot compare %r and %r' % (self.what, x, y))
 
+    def ident_eq(self, x, y):
+        """bit-identical values (strings compared by header, as a copy produces)"""
+        if isinstance(x, StrV) and isinstance(y, StrV):
+            return and_(eq(x.arr, y.arr), eq(x.off, y.off), eq(x.len, y.len))
+        if isinstance(x, (StructV, SnapV)) and isinstance(y, (StructV, SnapV)):
+            return and_(*[self.ident_eq(x.f[k], y.f[k]) for k in x.f])
+        if isinstance(x, ArrV) and isinstance(y, ArrV):
+            return and_(*[self.ident_eq(p, q) for p, q in zip(x.elems, y.elems)])
+        if isinstance(x, TupleV) and isinstance(y, TupleV):
+            return and_(*[self.ident_eq(p, q) for p, q in zip(x.elems, y.elems)])
+        return self.deep_eq(x, y)
+
     def quant(self, which, args):
         if len(args) != 4 or args[0][0] != 'id':
             raise SpecError('%s(k, lo, hi, body) expected' % which)
@@ -445,8 +457,12 @@ class SpecEval(object):
                 return self.content_eq(a, b)
             if name in ('mapget', 'maphas'):
                 m = self.ev(args[0])
-                k = self.term(args[1])
+                kv = self.ev(args[1])
+                k = ex.map_key_term(self.st, ex.U(m.tid), kv) if isinstance(kv, StrV) else self.term(args[1])
                 return ex.map_read(self.st, m, k, name == 'maphas')
+            if name == 'samestr':
+                a, b = self.ev(args[0]), self.ev(args[1])
+                return and_(eq(a.arr, b.arr), eq(a.off, b.off), eq(a.len, b.len))
             if name == 'allocated':
                 v = self.ev(args[0])
                 t = v.arr if isinstance(v, (SliceV, StrV)) else ex.scalar_term(v)
